@@ -299,6 +299,63 @@ pub fn run(ctx: &Ctx) {
         }
         ctx.run_list("hfs_product", &v, true, oracle);
     }
+    // the full index range: every ordered pair over {psk0..psk255, fallback} (+ psk256.. invalid),
+    // and all ordered triples over a boundary set, on a 1-letter, a 2-letter and a 4-letter pattern
+    {
+        let all: Vec<String> = (0..=257u32).map(|n| format!("psk{n}")).chain(std::iter::once("fallback".to_string())).collect();
+        let bset = ["psk0", "psk1", "psk9", "psk10", "psk99", "psk100", "psk254", "psk255", "psk256", "fallback"];
+        let n = all.len();
+        let pats3 = ["X", "NK", "X1X1"];
+        let pairs = n * n;
+        let triples = bset.len() * bset.len() * bset.len();
+        let total2 = (pairs + n + triples) * pats3.len();
+        ctx.note(format!("modifier index range: {} names (all ordered pairs over psk0..psk257+fallback, singles, boundary triples, 3 patterns)", total2));
+        ctx.run_indexed(
+            "modifier_index_range",
+            total2,
+            true,
+            move |i| {
+                let p = pats3[i % 3];
+                let j = i / 3;
+                let mods = if j < pairs {
+                    format!("{}+{}", all[j / n], all[j % n])
+                } else if j < pairs + n {
+                    all[j - pairs].clone()
+                } else {
+                    let t = j - pairs - n;
+                    let b = bset.len();
+                    format!("{}+{}+{}", bset[t / (b * b)], bset[(t / b) % b], bset[t % b])
+                };
+                Case { s: format!("Noise_{p}{mods}_25519_AESGCM_SHA512"), origin: 0 }
+            },
+            oracle,
+        );
+    }
+    // double edits: two random single-character edits of valid names
+    {
+        let pats = pats.clone();
+        let mods = mods.clone();
+        ctx.run_prop(
+            "double_edits",
+            ctx.tier.pick(150_000, 2_000_000),
+            move || {
+                let (pats, mods) = (pats.clone(), mods.clone());
+                (any::<u16>(), any::<u16>(), 0usize..36, any::<u16>(), 0u8..5, any::<u8>(), any::<u16>(), 0u8..5, any::<u8>()).prop_map(move |(pi, mi, sx, p1, k1, c1, p2, k2, c2)| {
+                    let base = format!(
+                        "Noise_{}{}_{}_{}_{}",
+                        pats[crate::engine::pick(pi, pats.len())],
+                        mods[crate::engine::pick(mi, mods.len())],
+                        ["25519", "448", "P256"][sx % 3],
+                        ["ChaChaPoly", "AESGCM", "XChaChaPoly"][(sx / 3) % 3],
+                        ["SHA256", "SHA512", "BLAKE2s", "BLAKE2b"][(sx / 9) % 4]
+                    );
+                    let once = edit_string(&base, p1 as usize, k1, c1);
+                    Case { s: edit_string(&once, p2 as usize, k2, c2), origin: 1 }
+                })
+            },
+            oracle,
+        );
+    }
     // every single edit of a sample of valid names
     let n_names = ctx.tier.pick(600usize, 3000);
     let mut samples: Vec<String> = Vec::new();
@@ -355,6 +412,8 @@ pub fn run(ctx: &Ctx) {
         || {
             prop_oneof![
                 2 => "\\PC{0,60}",
+                1 => "\\PC{60,400}",
+                1 => "Noise_[NXKI1]{1,4}(psk(0|1|9|10|99|100|199|200|254|255|256|300)|fallback|\\+){0,6}_(25519|P256)_(ChaChaPoly|AESGCM)_(SHA256|BLAKE2b)",
                 2 => "[Noise_XKI1NpskfalbchP2569+ASGCMHBE0-9]{0,50}",
                 4 => "(Noise|noise|Nois|)_?[NXKI1]{0,5}((psk[0-9]{0,4}|fallback|hfs|pskx|\\+){0,4})_(25519|448|P256|25519\\+Kyber1024|)_(ChaChaPoly|AESGCM|XChaChaPoly|chachapoly)_(SHA256|SHA512|BLAKE2s|BLAKE2b|SHA1)(_.{0,3})?",
                 3 => "Noise_[NXKI1]{1,4}(psk[0-9]{1,3}(\\+(psk[0-9]{1,3}|fallback)){0,3})?_(25519|448|P256)_(ChaChaPoly|AESGCM|XChaChaPoly)_(SHA256|SHA512|BLAKE2s|BLAKE2b)",
